@@ -6,6 +6,7 @@ package pool
 
 import (
 	"bufio"
+	"bytes"
 	"encoding/json"
 	"fmt"
 	"io"
@@ -186,6 +187,11 @@ func RunParent(mode string, r io.Reader, wr io.Writer, n int, perCase time.Durat
 						w = nil
 					} else {
 						results <- withID(c, rp.line)
+						// a handler may ask for a fresh process for the next case (C16: process-wide state)
+						if bytes.Contains(rp.line, []byte(`"_fresh":true`)) {
+							w.kill()
+							w = nil
+						}
 					}
 				case <-time.After(perCase):
 					results <- mkObs(c, "timeout", "")
